@@ -113,6 +113,7 @@ pub const VALID_EXPRS: &[&str] = &[
     "<math><mn>2</mn><mi intent=':silent'>x</mi></math>",
     "<math><mn mathvariant='sans-serif'>2</mn><mo>+</mo><mn>&#x1D7E4;</mn></math>",
     "<math><mi>&#x1D63C;</mi><mo>+</mo><mi>&#x1D655;</mi><mo>=</mo><mn>2</mn><mo>&#x225F;</mo><mn>3</mn><mo>&#x22BB;</mo><mi>y</mi></math>",
+    "<math><menclose notation=' rightarrow downarrow uparrow '><mi>x</mi></menclose><mo>+</mo><menclose notation='uparrow'/></math>",
     // what regional variants and per-language definitions override: the three kinds of brackets; unit names given as text
     "<math><mi>x</mi><mo>(</mo><mi>y</mi><mo>+</mo><mn>1</mn><mo>)</mo><mo>+</mo><mo>[</mo><mi>z</mi><mo>]</mo><mo>&#x2212;</mo><mo>{</mo><mi>w</mi><mo>}</mo></math>",
     "<math><mn>2</mn><mtext>tsk</mtext><mo>+</mo><mn>2</mn><mtext>cup</mtext><mo>+</mo><mn>3</mn><mtext>kuppi</mtext><mo>+</mo><mn>5</mn><mi mathvariant='normal' intent=':unit'>km</mi><mo>+</mo><mn>1</mn><mtext>B</mtext></math>",
